@@ -518,6 +518,7 @@ func run(r *evid.Run) {
 	})
 
 	archives(r, paths, scratch)
+	histories(r, scratch)
 	pluginNames(r, paths)
 	constructors(r, paths)
 	rootSpellings(r, paths, scratch)
@@ -683,25 +684,53 @@ func normalForm(p string) string {
 
 // ---- archives ----
 
-func tarWith(name string) []byte {
+// archiveEntryKinds: the kind of the archive entry that carries the name under test. Only regular files are
+// extracted, but an escaping or absolute NAME must be rejected on an entry of any kind.
+var archiveEntryKinds = []string{"file", "dir", "symlink", "hardlink", "fifo"}
+
+func tarWith(name, kind string) []byte {
 	var buf bytes.Buffer
 	w := tar.NewWriter(&buf)
 	_ = w.WriteHeader(&tar.Header{Typeflag: tar.TypeReg, Name: "ok/first.txt", Size: 2, Mode: 0o644})
 	_, _ = w.Write([]byte("ok"))
-	_ = w.WriteHeader(&tar.Header{Typeflag: tar.TypeReg, Name: name, Size: 7, Mode: 0o644})
-	_, _ = w.Write([]byte("payload"))
+	switch kind {
+	case "file":
+		_ = w.WriteHeader(&tar.Header{Typeflag: tar.TypeReg, Name: name, Size: 7, Mode: 0o644})
+		_, _ = w.Write([]byte("payload"))
+	case "dir":
+		_ = w.WriteHeader(&tar.Header{Typeflag: tar.TypeDir, Name: name, Mode: 0o755})
+	case "symlink":
+		_ = w.WriteHeader(&tar.Header{Typeflag: tar.TypeSymlink, Name: name, Linkname: "ok/first.txt", Mode: 0o777})
+	case "hardlink":
+		_ = w.WriteHeader(&tar.Header{Typeflag: tar.TypeLink, Name: name, Linkname: "ok/first.txt", Mode: 0o644})
+	case "fifo":
+		_ = w.WriteHeader(&tar.Header{Typeflag: tar.TypeFifo, Name: name, Mode: 0o644})
+	}
+	_ = w.WriteHeader(&tar.Header{Typeflag: tar.TypeReg, Name: "ok/last.txt", Size: 2, Mode: 0o644})
+	_, _ = w.Write([]byte("ok"))
 	_ = w.Close()
 	return buf.Bytes()
 }
 
-func zipWith(name string) []byte {
+// zipWith: zip has no hard links or fifos; kinds other than file, dir and symlink yield nil.
+func zipWith(name, kind string) []byte {
 	var buf bytes.Buffer
 	w := zip.NewWriter(&buf)
 	f, _ := w.CreateHeader(&zip.FileHeader{Name: "ok/first.txt", Method: zip.Store})
 	_, _ = f.Write([]byte("ok"))
-	f, err := w.CreateHeader(&zip.FileHeader{Name: name, Method: zip.Store})
-	if err == nil {
-		_, _ = f.Write([]byte("payload"))
+	hdr := &zip.FileHeader{Name: name, Method: zip.Store}
+	switch kind {
+	case "file":
+	case "dir":
+		hdr.SetMode(os.ModeDir | 0o755)
+	case "symlink":
+		hdr.SetMode(os.ModeSymlink | 0o777)
+	default:
+		return nil
+	}
+	f, err := w.CreateHeader(hdr)
+	if err == nil && kind != "dir" {
+		_, _ = f.Write([]byte("ok/first.txt"))
 	}
 	_ = w.Close()
 	return buf.Bytes()
@@ -723,43 +752,52 @@ func archives(r *evid.Run, paths []string, scratch string) {
 		fxs := map[string]*fixture{"map(mem,root)": memShape.make(scratch), "os": osShape.make(scratch)}
 		for pi := items[i].lo; pi < items[i].hi; pi++ {
 			name := paths[pi]
-			if strings.HasSuffix(name, "/") {
-				// a trailing slash makes it a directory entry; covered by the name without it
-				continue
-			}
-			for strip := uint32(0); strip <= 2; strip++ {
-				// what remains after stripping components, per the reference
-				for kind, fx := range fxs {
-					for _, format := range []string{"tar", "zip"} {
-						var err error
-						func() {
-							defer func() {
-								if rec := recover(); rec != nil {
-									err = fmt.Errorf("PANIC: %v", rec)
+			for _, ekind := range archiveEntryKinds {
+				if strings.HasSuffix(name, "/") && ekind != "dir" {
+					// a trailing slash makes it a directory entry
+					continue
+				}
+				for strip := uint32(0); strip <= 2; strip++ {
+					// what remains after stripping components, per the reference
+					for kind, fx := range fxs {
+						for _, format := range []string{"tar", "zip"} {
+							if format == "zip" && zipWith("x", ekind) == nil {
+								continue
+							}
+							esfx := ""
+							if ekind != "file" {
+								esfx = "/" + ekind + "-entry"
+							}
+							var err error
+							func() {
+								defer func() {
+									if rec := recover(); rec != nil {
+										err = fmt.Errorf("PANIC: %v", rec)
+									}
+								}()
+								if format == "tar" {
+									err = storagearchive.Untar(ctx, bytes.NewReader(tarWith(name, ekind)), fx.wb, storagearchive.UntarWithStripComponentCount(strip))
+								} else {
+									data := zipWith(name, ekind)
+									err = storagearchive.Unzip(ctx, bytes.NewReader(data), int64(len(data)), fx.wb, storagearchive.UnzipWithStripComponentCount(strip))
 								}
 							}()
-							if format == "tar" {
-								err = storagearchive.Untar(ctx, bytes.NewReader(tarWith(name)), fx.wb, storagearchive.UntarWithStripComponentCount(strip))
-							} else {
-								data := zipWith(name)
-								err = storagearchive.Unzip(ctx, bytes.NewReader(data), int64(len(data)), fx.wb, storagearchive.UnzipWithStripComponentCount(strip))
+							r.Eval(1)
+							c := caseT{format + "->" + kind + fmt.Sprintf("(strip=%d)", strip), "extract " + ekind + " entry", name}
+							if strings.Contains(name, "..") || strings.HasPrefix(name, "/") {
+								r.Distinct("archive|" + c.Shape + "|" + ekind + "|" + name)
 							}
-						}()
-						r.Eval(1)
-						c := caseT{format + "->" + kind + fmt.Sprintf("(strip=%d)", strip), "extract", name}
-						if strings.Contains(name, "..") || strings.HasPrefix(name, "/") {
-							r.Distinct("archive|" + c.Shape + "|" + name)
+							if err != nil && strings.HasPrefix(err.Error(), "PANIC") {
+								r.Violate("panic/archive/"+format, fmt.Sprintf("extracting entry %q panicked: %v", name, err), c)
+							}
+							if ref := Resolve(name); (ref.Escapes || ref.Absolute) && err == nil {
+								r.Violate(fmt.Sprintf("accepted/archive/%s/strip%d/%s%s", format, strip, normalForm(name), esfx), fmt.Sprintf("%s %s entry %q (strip %d) was accepted without error although the entry name %s", format, ekind, name, strip, why(ref)), c)
+							}
+							if d := fx.outside(); d != "" {
+								r.Violate("escaped/archive/"+format+"/"+kind+esfx, fmt.Sprintf("%s %s entry %q (strip %d) into %s: %s", format, ekind, name, strip, kind, d), c)
+							}
+							fx.restore()
 						}
-						if err != nil && strings.HasPrefix(err.Error(), "PANIC") {
-							r.Violate("panic/archive/"+format, fmt.Sprintf("extracting entry %q panicked: %v", name, err), c)
-						}
-						if ref := Resolve(name); (ref.Escapes || ref.Absolute) && err == nil {
-							r.Violate(fmt.Sprintf("accepted/archive/%s/strip%d/%s", format, strip, normalForm(name)), fmt.Sprintf("%s entry %q (strip %d) was extracted without error although the entry name %s", format, name, strip, why(ref)), c)
-						}
-						if d := fx.outside(); d != "" {
-							r.Violate("escaped/archive/"+format+"/"+kind, fmt.Sprintf("%s entry %q (strip %d) into %s: %s", format, name, strip, kind, d), c)
-						}
-						fx.restore()
 					}
 				}
 			}
